@@ -86,6 +86,7 @@ where
     pub fn apply_rollback(&mut self, stamp: Stamp, stored_len: usize, pushed: Vec<T>) {
         self.read_only.header.update_stamp(stamp);
         self.read_only.stored_len.set(stored_len);
+        self.previous_stored_len = stored_len;
         *self.pushed.current_mut() = pushed;
         self.pushed.save();
     }
